@@ -197,7 +197,12 @@ def run_session(script, env=None, final_timeout=15.0):
                     problems.append(f"no bestmove within {final_timeout} s after `{cmd}`")
             else:
                 t0 = time.time()
-                lines = e.sync(5.0)
+                if cmd.strip() == "isready":
+                    # the command is its own barrier (a second isready would desynchronise the answers)
+                    rl, ok, eof = e.read_until(lambda l: l == "readyok", 5.0)
+                    lines = [l for _, l in rl[:-1]] if ok else None
+                else:
+                    lines = e.sync(5.0)
                 dt = time.time() - t0
                 if lines is None:
                     problems.append(f"isready not answered within 5 s after `{cmd}`")
@@ -348,6 +353,8 @@ def engine_search(fen, depth, env=None, prelude=()):
     try:
         for c in prelude:
             e.send(c)
+        if prelude and e.sync(120) is None:      # drain everything the unrelated searches printed
+            return None
         e.send("position fen " + fen)
         e.send("go depth %d" % depth)
         lines, ok, eof = e.read_until(lambda l: l.startswith("bestmove"), 120)
